@@ -67,6 +67,15 @@ struct Arena {
 	struct Ev { char kind; size_t off, size; };
 	std::vector<Ev> events;				// calls since the last takeEvents()
 	uint64_t allocs = 0, frees = 0;
+	// fault injection: the base allocator throws bad_alloc on the (failCountdown+1)-th request from now (-1 = never) - also inside
+	// select_on_container_copy_construction (it allocates the control block of the new allocator object; it used to be declared
+	// noexcept, so that a throw there was std::terminate: repaired in /repo, this is the regression test - the terminate handler
+	// installed by installCrashReporter turns a std::terminate into a FAIL line)
+	long failCountdown = -1;
+	int inSelectOnCopy = 0;
+	uint64_t faultsFired = 0;
+	void armFail(long k) { failCountdown = k; }
+	void disarm() { failCountdown = -1; }
 
 	void init(Ctx& ctx) {
 		c = &ctx;
@@ -88,6 +97,7 @@ struct Arena {
 		bump = 16 * (size_t)rng->below(64);
 	}
 	void* allocate(size_t size) {
+		if (failCountdown >= 0 && failCountdown-- == 0) { failCountdown = -1; ++faultsFired; throw std::bad_alloc(); }
 		// 16-aligned (alignof(max_align_t)), random gap so that every residue modulo blockSize * blockCount occurs
 		size_t off = bump + 16 * (size_t)rng->below(8);
 		off = (off + 15) / 16 * 16;
@@ -157,7 +167,7 @@ struct Cfg {
 
 struct UserBlock { size_t tsize, talign, n; int pid; bool viaPool; int owner; };
 
-struct Act { bool isAlloc; long long id; size_t tsize, talign, n; std::vector<size_t> bufs; };
+struct Act { bool isAlloc; long long id; size_t tsize, talign, n; std::vector<size_t> bufs; bool failed = false; };
 
 struct PoolView { size_t S, A, ac; long rc; };
 
@@ -177,6 +187,13 @@ struct Tracer {
 	bool provenanceFired = false;
 	std::string lastOps;			// tail of the history, for FAIL lines
 	uint64_t reparams = 0, poolDeaths = 0, rawArrays = 0, rawSingles = 0, poolAllocs = 0, buffersGot = 0, buffersBack = 0, cacheFlushes = 0;
+	// fault layer: ordinal of the allocate call (within the running container call) that threw, -1 = none
+	int allocCalls = 0, failedCall = -1;
+	uint64_t failedAllocsPool = 0, failedAllocsRaw = 0, failedAllocsReparam = 0, failedNews = 0, selectOnCopyCaught = 0;
+	std::string firstMisaligned;	// first pointer of an over-aligned value type that is not aligned for the type (finding F29)
+	size_t failedNewSize = 0, failedNewAlign = 0;	// value type of the allocator object whose constructor threw last
+	// over-aligned value types (alignof(T) > UIntConst::maxAlignment): the allocator only promises maxAlignment
+	uint64_t overalignedAllocs = 0, overalignedMisaligned = 0;
 
 	void reset(Ctx& ctx, Suite* tr, const std::string& name) {
 		c = &ctx; trace = tr; suiteName = name; poolIds.clear(); nextPid = 0; blocks.clear(); acts.clear(); newPools.clear();
@@ -212,8 +229,18 @@ inline void reportDeath() {
 	fflush(stdout);
 }
 inline void onAbortSignal(int sig) { reportDeath(); signal(sig, SIG_DFL); raise(sig); }
+// std::terminate (e.g. an exception leaving a noexcept function of the allocator) is a property-level failure, not just a crash
+inline void onTerminate() {
+	Tracer& t = tracer();
+	if (t.c) t.c->fail("C20 terminate: std::terminate was called%s while running history [%s]; last calls: %s",
+		arena().inSelectOnCopy > 0 ? " inside select_on_container_copy_construction (bad_alloc of the base allocator must be catchable there)" : "",
+		t.suiteName.c_str(), t.lastOps.c_str());
+	fflush(stdout);
+	abort();
+}
 inline void installCrashReporter() {
 	signal(SIGABRT, onAbortSignal); signal(SIGSEGV, onAbortSignal);
+	std::set_terminate(onTerminate);
 #if defined(__SANITIZE_ADDRESS__)
 	__sanitizer_set_death_callback(reportDeath);
 #endif
@@ -236,7 +263,16 @@ public:
 	explicit LogA(const BaseA& base) {
 		Arena& ar = arena(); int saved = ar.curPid; ar.curPid = -2;
 		ar.takeEvents();
-		::new (static_cast<void*>(&mStore)) Inner(base);
+		try { ::new (static_cast<void*>(&mStore)) Inner(base); }
+		catch (const std::bad_alloc&) {
+			// allocate_shared (pool_allocator.h:77) threw: there is no allocator object and no pool
+			Tracer& t = tracer();
+			auto evs = ar.takeEvents(); ar.curPid = saved;
+			if (!evs.empty()) t.c->fail("C20 fault: %s the constructor that threw bad_alloc made %zu successful base allocator calls", t.suiteName.c_str(), evs.size());
+			++t.failedNews; t.failedNewSize = sizeof(T); t.failedNewAlign = alignof(T);
+			t.line(fmt("anewfail %zu %zu", sizeof(T), alignof(T)), "E:bad_alloc | - | " + t.ledgerStr());
+			throw;
+		}
 		registerNew(ar, saved);
 	}
 	LogA(const LogA& o) { ::new (static_cast<void*>(&mStore)) Inner(o.inner()); logCopy(); }
@@ -268,9 +304,22 @@ public:
 	LogA select_on_container_copy_construction() const {
 		Arena& ar = arena(); int saved = ar.curPid; ar.curPid = -2;
 		ar.takeEvents();
-		LogA r(Adopt{}, *this);
-		r.registerNew(ar, saved);
-		return r;
+		++ar.inSelectOnCopy;
+		try {
+			LogA r(Adopt{}, *this);
+			--ar.inSelectOnCopy;
+			r.registerNew(ar, saved);
+			return r;
+		} catch (const std::bad_alloc&) {
+			// the control block of the new allocator object could not be allocated: a catchable bad_alloc, nothing has changed
+			--ar.inSelectOnCopy;
+			Tracer& t = tracer();
+			auto evs = ar.takeEvents(); ar.curPid = saved;
+			if (!evs.empty()) t.c->fail("C20 fault: %s select_on_container_copy_construction that threw bad_alloc made %zu successful base allocator calls", t.suiteName.c_str(), evs.size());
+			++t.failedNews; ++t.selectOnCopyCaught; t.failedNewSize = sizeof(T); t.failedNewAlign = alignof(T);
+			t.line(fmt("anewfail %zu %zu", sizeof(T), alignof(T)), "E:bad_alloc | - | " + t.ledgerStr());
+			throw;
+		}
 	}
 
 	T* allocate(size_t n) {
@@ -280,7 +329,36 @@ public:
 		size_t Sb = inner().mMemPool->GetBlockSize(), Ab = inner().mMemPool->GetBlockAlignment();
 		int saved = ar.curPid; ar.curPid = pid;
 		ar.takeEvents();
-		T* p = inner().allocate(n);
+		int ordinal = t.allocCalls++;
+		T* p;
+		try { p = inner().allocate(n); }
+		catch (const std::bad_alloc&) {
+			// the base allocator threw: a failed allocate changes nothing, except that an idle pool asked for a single object
+			// of another type has already been re-parameterised (pool_allocator.h:119) and has returned its buffers
+			auto evs = ar.takeEvents();
+			ar.curPid = saved;
+			auto par = Inner::pvGetMemPoolParams();
+			bool equal = par.GetBlockSize() == Sb && par.GetBlockAlignment() == Ab;
+			bool poolPath = n == 1 && (equal || acBefore == 0);
+			bool reparam = n == 1 && !equal && acBefore == 0;
+			size_t Se = reparam ? par.GetBlockSize() : Sb, Ae = reparam ? par.GetBlockAlignment() : Ab;
+			PoolView v = view();
+			if (v.ac != acBefore || v.S != Se || v.A != Ae || t.pidOf(pool()) != pid)
+				t.c->fail("C20 fault: %s allocate(%zu) of a %zu/%zu type threw bad_alloc and left the pool with par=%zu/%zu ac=%zu (before: par=%zu/%zu ac=%zu, expected par=%zu/%zu); history: %s",
+					t.suiteName.c_str(), n, sizeof(T), alignof(T), v.S, v.A, v.ac, Sb, Ab, acBefore, Se, Ae, t.lastOps.c_str());
+			for (auto& e : evs) {
+				if (e.kind == 'M') t.c->fail("C20 fault: %s allocate(%zu) threw bad_alloc but kept %zu bytes of the base allocator (arena+%zu): lost block; history: %s", t.suiteName.c_str(), n, e.size, e.off, t.lastOps.c_str());
+				else if (!reparam) t.c->fail("C20 fault: %s allocate(%zu) threw bad_alloc and returned a buffer (arena+%zu) although the pool was not re-parameterised", t.suiteName.c_str(), n, e.off);
+				else ++t.buffersBack;
+			}
+			if (poolPath) ++t.failedAllocsPool; else ++t.failedAllocsRaw;
+			if (reparam) ++t.failedAllocsReparam;
+			t.failedCall = ordinal;
+			Act a{ true, -1, sizeof(T), alignof(T), n, {}, true };
+			t.acts.push_back(a);
+			t.line(fmt("allocfail %d %zu %zu %zu", pid, sizeof(T), alignof(T), n), "E:bad_alloc " + t.poolStr(pid, v) + " | " + t.evStr(evs) + " | " + t.ledgerStr());
+			throw;
+		}
 		auto evs = ar.takeEvents();
 		ar.curPid = saved;
 		size_t acAfter = inner().mMemPool->GetAllocateCount();
@@ -288,7 +366,18 @@ public:
 		bool reparam = viaPool && (Sb != inner().mMemPool->GetBlockSize() || Ab != inner().mMemPool->GetBlockAlignment());
 		long long id = ar.rel(p);
 		if (!ar.inside(p)) t.c->fail("C20 allocate: %s pointer outside every block of the base allocator", t.suiteName.c_str());
-		if ((uintptr_t)p % alignof(T) != 0) t.c->fail("C20 allocate: %s pointer arena+%lld not aligned to %zu", t.suiteName.c_str(), id, alignof(T));
+		// what the allocator promises is min(alignof(T), UIntConst::maxAlignment) (ObjectAlignmenter, MemManagerStd): for over-aligned
+		// value types a pointer that is not aligned for T is the open known finding F29: counted here, reported once per run (dumpTracerStats)
+		const size_t promised = alignof(T) < (size_t)momo::internal::UIntConst::maxAlignment ? alignof(T) : (size_t)momo::internal::UIntConst::maxAlignment;
+		if ((uintptr_t)p % promised != 0) t.c->fail("C20 allocate: %s pointer arena+%lld not aligned to %zu", t.suiteName.c_str(), id, promised);
+		if (alignof(T) > promised) {
+			++t.overalignedAllocs;
+			if ((uintptr_t)p % alignof(T) != 0) {
+				if (t.overalignedMisaligned++ == 0)
+					t.firstMisaligned = fmt("%s: allocate(%zu) for a value type of %zu bytes with alignas(%zu) (%s) returned arena+%lld = %p", t.suiteName.c_str(), n, sizeof(T), alignof(T),
+						viaPool ? "pool block" : "memory manager block", id, (void*)p);
+			}
+		}
 		if (t.blocks.count(id)) t.c->fail("C20 allocate: %s returned arena+%lld which is still live", t.suiteName.c_str(), id);
 		t.blocks[id] = UserBlock{ sizeof(T), alignof(T), n, pid, viaPool, t.curOwner };
 		Act a{ true, id, sizeof(T), alignof(T), n, {} };
